@@ -54,6 +54,8 @@ def wanted (fs : List Filter) (e : Ev) : Bool := fs.any (·.invoke e)
 inductive Act
   | arrive (e : Ev)
   | consume
+  /-- the goroutine receives one event but `client.Send` fails: `stream` logs and returns -/
+  | consumeFail
   /-- `Stop()` (stop request or client disconnect): sets `stopped`, closes `eventCh` -/
   | stop
   deriving DecidableEq, Repr, Inhabited
@@ -67,6 +69,10 @@ structure ES where
   log : List (Ev × Bool) := []
   /-- `es.stopped` (HandleEvent returns early; the goroutine still drains what is buffered) -/
   stopped : Bool := false
+  /-- the event whose `client.Send` failed (at most one: the goroutine returns) -/
+  lost : List Ev := []
+  /-- the `stream` goroutine has returned after a failed send -/
+  dead : Bool := false
   deriving Repr, Inhabited
 
 def esStep (fs : List Filter) (cap : Nat) (s : ES) : Act → ES
@@ -77,9 +83,15 @@ def esStep (fs : List Filter) (cap : Nat) (s : ES) : Act → ES
       else { s with log := s.log ++ [(e, false)] }   -- `default:` branch: dropped
     else s
   | .consume =>
-    match s.buf with
-    | [] => s
-    | e :: r => { s with buf := r, sent := s.sent ++ [e] }
+    if s.dead then s
+    else match s.buf with
+      | [] => s
+      | e :: r => { s with buf := r, sent := s.sent ++ [e] }
+  | .consumeFail =>
+    if s.dead then s
+    else match s.buf with
+      | [] => s
+      | e :: r => { s with buf := r, lost := [e], dead := true }
   | .stop => { s with stopped := true }
 
 def esRun (fs : List Filter) (cap : Nat) (sched : List Act) : ES := sched.foldl (esStep fs cap) {}
@@ -158,6 +170,7 @@ def liveArrivals : List Act → List Ev
   | [] => []
   | .arrive e :: r => e :: liveArrivals r
   | .consume :: r => liveArrivals r
+  | .consumeFail :: r => liveArrivals r
   | .stop :: _ => []
 
 /-- capacity of `eventCh` in `newEventStream` -/
